@@ -469,6 +469,10 @@ def run(chk, replay=None):
     fc = B.forecast(rates)
     wobs = [[1, 0, 2], [0, 1, 0], [0, 0, 1]]
     cat = B.catalog(wobs, 3, 3)
+    import datetime
+    fc_other = B.forecast(rates * 1.25 + 0.125, name='g')
+    for f_ in (fc, fc_other):
+        f_.start_time, f_.end_time = datetime.datetime(2020, 1, 1), datetime.datetime(2020, 1, 11)
     det_tests = [('poisson L', lambda s: pe.likelihood_test(fc, cat, num_simulations=20, seed=s)),
                  ('poisson CL', lambda s: pe.conditional_likelihood_test(fc, cat, num_simulations=20, seed=s)),
                  ('poisson S', lambda s: pe.spatial_test(fc, cat, num_simulations=20, seed=s)),
@@ -495,6 +499,11 @@ def run(chk, replay=None):
             runs = []
             for pre in (123, 456):
                 numpy.random.seed(pre)          # different generator state before the call: the seed must override it
+                if pre == 456:
+                    # ... and comparative tests ran on the same forecast object in between (they only read it)
+                    guarded(pe.paired_t_test, fc, fc_other, cat, scale=True)
+                    guarded(be.binary_paired_t_test, fc_other, fc, cat, scale=True)
+                    guarded(pe.w_test, fc, fc_other, cat, scale=True)
                 r_ = guarded_timeout(10, fn, s)
                 chk.count()
                 runs.append('raised' if isinstance(r_, Raised) else digest(r_))
